@@ -164,107 +164,181 @@ def _bool_binop_eval(ev, expr, st):
     return NOTHING
 
 
+def _sum_terms(text):
+    """terms of a sum value text (zero literals dropped, float() transparent), sorted"""
+    from ..spec import _strip_parens, _top_binop
+
+    out = []
+
+    def walk(t):
+        t = _strip_parens(t)
+        m = re.fullmatch(r"float\((.*)\)", t)
+        if m and _strip_parens("(" + m.group(1) + ")") == m.group(1).strip():
+            t = _strip_parens(m.group(1))
+        hit = _top_binop(t, ("Add",))
+        if hit is None:
+            if not re.fullmatch(r"0(\.0*)?", t):
+                out.append(t)
+            return
+        walk(hit[0])
+        walk(hit[2])
+
+    walk(text)
+    return sorted(out)
+
+
+def _rows(p, sm):
+    """(ITER, n) for the accumulation loop over the rows of the table taken on this path"""
+    from ..spec import vt
+
+    its = {}
+    for k, v in p.atoms.items():
+        m = re.match(r"more\((.+)#L\d+,(\d+)\)$", vt(k))
+        if m and v:
+            its[m.group(1)] = max(its.get(m.group(1), 0), int(m.group(2)) + 1)
+    return its
+
+
+def _ratio_spec(ctx, f, p, key, res, want_num, want_den, scale, what):
+    """the value returned on path `p` must be NaN (only when the expected denominator is 0) or scale * num / den"""
+    from ..spec import atoms, product_form
+
+    at = atoms(p)
+    if "nan" in res.lower():
+        zero = any(v and re.fullmatch(r"(.+) Eq 0|0 Eq (.+)", k) and _sum_terms((re.fullmatch(r"(.+) Eq 0|0 Eq (.+)", k).group(1) or re.fullmatch(r"(.+) Eq 0|0 Eq (.+)", k).group(2))) == want_den for k, v in at.items())
+        zero = zero or any((not v) and _sum_terms(k) == want_den for k, v in at.items() if " " not in k.strip("()") or " Add " in k)
+        ctx.check(not want_den or zero, key, f"{what}: NaN is returned although the denominator ({' + '.join(want_den) or 0}) is not known to be 0 on this path", f.loc())
+        return
+    num, den = product_form(res)
+    consts = [x for x in num if re.fullmatch(r"-?\d+(\.\d*)?", x)]
+    num = [x for x in num if x not in consts]
+    got_scale = 1.0
+    for c in consts:
+        got_scale *= float(c)
+    # a zero numerator (`0 / total`) has no symbolic factor
+    zero_num = any(re.fullmatch(r"0(\.0*)?", x) for x in consts)
+    if zero_num:
+        got_scale = scale
+    if len(num) > 1 or len(den) != 1:
+        raise AnalysisError(f"{f.key}: returned value `{res[:100]}` is not a ratio of two sums")
+    got_num = _sum_terms(num[0]) if num else []
+    got_den = _sum_terms(den[0])
+    ctx.check(got_num == want_num and got_den == want_den and got_scale == scale, key, f"{what}: returns ({' + '.join(got_num) or 0}) / ({' + '.join(got_den) or 0}) * {got_scale:g}; the definition requires ({' + '.join(want_num) or 0}) / ({' + '.join(want_den) or 0}) * {scale:g}", f.loc())
+
+
 @rule("C07.R2", "accumulate-if predicates equal the definitions (distance: XOR over OR; coverage: used-by-a-selected-platform over all)")
 def r2(ctx):
+    """table specification over the decision tables of distance() and coverage() for tables of one and two rows
+    (S_i, C_i): distance = sum(C_i | exactly one of p1, p2 in S_i) / sum(C_i | p1 or p2 in S_i); coverage = 100 *
+    sum(C_i | S_i non-empty and some selected platform in S_i) / sum(C_i); NaN exactly when the denominator is 0.
+    A membership the path never examined is tried both ways: the result must be right for both."""
+    from ..spec import atoms, tab, vt
+
     repo = ctx.repo
-    # ---- distance
     f = repo.func("report", "distance")
     sm, p1, p2 = f.params
-    loops = [n for n in f.node.body if isinstance(n, ast.For) and u(n.iter) == f"{sm}.items()"]
-    ctx.require(len(loops) >= 1, "distance: loop over setmap.items() not found")
-    tgt = loops[0].target
-    ctx.require(isinstance(tgt, ast.Tuple) and len(tgt.elts) == 2, "distance: loop target is not (pset, count)")
-    ps, cnt = [u(e) for e in tgt.elts]
-    num = den = None
-    rets = [n.value for n in walk_no_nested(f.node) if isinstance(n, ast.Return) and "nan" not in u(n.value)]
-    if len(rets) == 1 and isinstance(rets[0], ast.BinOp) and isinstance(rets[0].op, ast.Div):
-        num = u(rets[0].left)
-        den = u(rets[0].right.args[0]) if isinstance(rets[0].right, ast.Call) and u(rets[0].right.func) == "float" else u(rets[0].right)
-    ctx.soft(num is not None, "report:distance:returns-ratio", f"distance must return <differing lines> / <lines used by either platform>: {[u(r) for r in rets]}", f.loc())
-    table = {}
-    for a, b in itertools.product((False, True), repeat=2):
-        member = {f"{p1} in {ps}": a, f"{p2} in {ps}": b}
-        incs = {}
-        for lp in loops:
-            for p in _run_iteration(lp, member):
-                for e in p.effects:
-                    if e[0] == "aug" and e[2] == "Add":
-                        incs[e[1]] = incs.get(e[1], [])
-                        incs[e[1]].append(vtext(e[3]))
-                extra = [k for k in p.atoms]
-                if extra:
-                    ctx.violation(f"report:distance:row:p1={int(a)},p2={int(b)}", f"accumulation depends on {extra}", f.loc(lp))
-        table[(a, b)] = incs
-        if num is None:
+    n_paths = 0
+    for p in tab(f, unroll=2):
+        its = _rows(p, sm)
+        if p.result[0] != "return":
+            ctx.violation(f"report:distance:returns", f"distance does not return a value on {p.describe()[:160]}", f.loc())
             continue
-        key = f"report:distance:row:p1_in={int(a)},p2_in={int(b)}"
-        got_num = incs.get(num, [])
-        got_den = incs.get(den, [])
-        want_num = [cnt] if (a != b) else []
-        want_den = [cnt] if (a or b) else []
-        ctx.check(got_num == want_num and got_den == want_den, key, f"a row used by p1={a}, p2={b} adds {got_num} to the numerator and {got_den} to the denominator; Jaccard distance requires {want_num} (symmetric difference) and {want_den} (union)", f.loc())
-    # R3 symmetry
-    sym = all(table[(a, b)] == table[(b, a)] for a, b in itertools.product((False, True), repeat=2))
-    ctx.check(sym, "report:distance:symmetric", "distance(p1, p2) and distance(p2, p1) accumulate different rows", f.loc())
+        if not its:
+            ctx.check("nan" in vt(p.result[1]).lower(), "report:distance:empty-table", "an empty table has no distance (NaN)", f.loc())
+            continue
+        if len(its) != 1 or not any(sm in i for i in its):
+            raise AnalysisError(f"distance: accumulation loops not recognised: {sorted(its)}")
+        ITER, n = next(iter(its.items()))
+        if not ITER.startswith(f"{sm}.items()"):
+            raise AnalysisError(f"distance: rows are not taken from {sm}.items(): {ITER}")
+        at = atoms(p)
+        other = [k for k in at if not any(f"{ITER}[{i}]" in k for i in range(n)) and not re.search(r" Eq 0|0 Eq |^\(?[\w. ()]*Add", k) and k not in (p1, p2)]
+        memb = []
+        for i in range(n):
+            S = f"{ITER}[{i}][0]"
+            memb.append((at.get(f"{p1} In {S}"), at.get(f"{p2} In {S}")))
+            other += [k for k in at if f"{ITER}[{i}]" in k and k not in (f"{p1} In {S}", f"{p2} In {S}") and not re.search(r" Eq 0|0 Eq ", k)]
+        if other:
+            ctx.violation("report:distance:depends-only-on-membership", f"the accumulation depends on {other[:2]} beyond (p1 in row, p2 in row)", f.loc())
+            continue
+        n_paths += 1
+        res = vt(p.result[1])
+        unknown = [(i, j) for i in range(n) for j in (0, 1) if memb[i][j] is None]
+        for combo in itertools.product((False, True), repeat=len(unknown)):
+            mm = [list(x) for x in memb]
+            for (i, j), v in zip(unknown, combo):
+                mm[i][j] = v
+            want_num = sorted(f"{ITER}[{i}][1]" for i in range(n) if mm[i][0] != mm[i][1])
+            want_den = sorted(f"{ITER}[{i}][1]" for i in range(n) if mm[i][0] or mm[i][1])
+            key = "report:distance:row:" + ";".join(f"p1_in={int(a)},p2_in={int(b)}" for a, b in mm)
+            _ratio_spec(ctx, f, p, key, res, want_num, want_den, 1.0, f"rows used by (p1, p2) = {[(a, b) for a, b in mm]}: Jaccard distance is <lines used by exactly one> / <lines used by either>")
+    if n_paths < 4:
+        raise AnalysisError(f"distance: only {n_paths} row paths understood")
     # ---- coverage
     g = repo.func("report", "coverage")
     smc, plc = g.params
-    loops = [n for n in g.node.body if isinstance(n, ast.For) and u(n.iter) == f"{smc}.items()"]
-    ctx.require(len(loops) == 1, "coverage: loop over setmap.items() not found")
-    lp = loops[0]
-    sub, sloc = [u(e) for e in lp.target.elts]
-    rets = [n.value for n in walk_no_nested(g.node) if isinstance(n, ast.Return) and "nan" not in u(n.value)]
-    ok = len(rets) == 1 and u(rets[0]) in ("used / total * 100.0", "used / total * 100", "100.0 * used / total", "100 * used / total", "100.0 * (used / total)")
-    ctx.soft(ok, "report:coverage:returns-percentage", f"coverage must return used / total * 100: {[u(r) for r in rets]}", g.loc())
-
-    class CH(Hooks):
-        def __init__(self, empty, anyp):
-            self.empty, self.anyp = empty, anyp
-
-        def resolve(self, expr, st):
-            t = u(expr)
-            if t in (f"{sub} == frozenset()", f"{sub} == frozenset([])", f"not {sub}", f"len({sub}) == 0"):
-                return self.empty
-            if t in (f"{sub} != frozenset()", f"len({sub}) > 0"):
-                return not self.empty
-            if t == sub:
-                return Sym("NONEMPTY") if False else NOTHING
-            return NOTHING
-
-        def on_call(self, call, ftext, args, kwargs, st):
-            if ftext == "any" and len(call.args) == 1:
-                a = call.args[0]
-                if isinstance(a, (ast.ListComp, ast.GeneratorExp)) and len(a.generators) == 1 and not a.generators[0].ifs:
-                    g_ = a.generators[0]
-                    if u(g_.iter) == sub and u(a.elt) == f"{u(g_.target)} in {plc}":
-                        return False if self.empty else self.anyp
-            if ftext.endswith(".isdisjoint") and len(args) == 1:
-                return True if self.empty else (not self.anyp)
-            return NOTHING
-
-    for empty, anyp in ((True, False), (False, False), (False, True)):
-        wrapper = ast.parse("def _f():\n    for _i in [0]:\n        pass").body[0]
-        wrapper.body[0].body = lp.body
-        paths = Evaluator(CH(empty, anyp)).paths(wrapper)
-        key = f"report:coverage:row:empty={int(empty)},used_by_selected={int(anyp)}"
-        if len(paths) != 1:
-            ctx.violation(key, f"accumulation depends on {[list(p.atoms) for p in paths]} beyond (row is the empty set, some platform of the row is selected)", g.loc(lp))
+    n_cov = 0
+    for p in tab(g, unroll=2):
+        its = _rows(p, smc)
+        if p.result[0] != "return":
+            ctx.violation("report:coverage:returns", f"coverage does not return a value on {p.describe()[:160]}", g.loc())
             continue
-        incs = {e[1]: vtext(e[3]) for e in paths[0].effects if e[0] == "aug" and e[2] == "Add"}
-        want = {"total": sloc}
-        if anyp:
-            want["used"] = sloc
-        ctx.check(incs == want, key, f"adds {incs}; coverage requires every row in the total and exactly the rows used by at least one selected platform in `used` ({want})", g.loc(lp))
+        if not its:
+            ctx.check("nan" in vt(p.result[1]).lower(), "report:coverage:empty-table", "an empty table has no coverage (NaN)", g.loc())
+            continue
+        if len(its) != 1:
+            raise AnalysisError(f"coverage: accumulation loops not recognised: {sorted(its)}")
+        ITER, n = next(iter(its.items()))
+        if not ITER.startswith(f"{smc}.items()"):
+            raise AnalysisError(f"coverage: rows are not taken from {smc}.items(): {ITER}")
+        at = atoms(p)
+        dflt = at.get(plc)
+        if dflt is None:
+            dflt = next((not v for k, v in at.items() if k in (f"None Eq {plc}", f"{plc} Eq None", f"0 Eq len({plc})", f"len({plc}) Eq 0")), None)
+        SEL = [plc] if dflt in (True, None) else [f"set().union(*{smc}.keys())", f"extract_platforms({smc})", f"set().union(*{smc})"]
+        rows = []
+        bad = None
+        for i in range(n):
+            S = f"{ITER}[{i}][0]"
+            empty = used = None
+            for k, v in at.items():
+                if S not in k:
+                    continue
+                if k in (f"frozenset() Eq {S}", f"{S} Eq frozenset()", f"len({S}) Eq 0", f"0 Eq len({S})", f"frozenset([]) Eq {S}", f"{S} Eq frozenset([])"):
+                    empty = v
+                elif k in (S, f"len({S}) Gt 0", f"0 Lt len({S})", f"frozenset() NotEq {S}", f"{S} NotEq frozenset()"):
+                    empty = not v
+                elif any(k in (f"any(comp:[_c0 in {P} for _c0 in {S}])", f"{S} BitAnd {P}", f"{P} BitAnd {S}", f"{S}.intersection({P})", f"{P}.intersection({S})", f"set({S}) BitAnd set({P})") for P in SEL):
+                    used = v
+                elif any(k in (f"{S}.isdisjoint({P})", f"{P}.isdisjoint({S})") for P in SEL):
+                    used = not v
+                elif not re.search(r" Eq 0|0 Eq ", k):
+                    bad = k
+            rows.append((empty, used))
+        if bad:
+            ctx.violation("report:coverage:depends-only-on-selection", f"the accumulation depends on `{bad[:100]}`: a row counts as used iff it is non-empty and one of the SELECTED platforms ({SEL[0]}) is in it (without a selection: all platforms of the table)", g.loc())
+            continue
+        n_cov += 1
+        res = vt(p.result[1])
+        unknown = [(i, j) for i in range(n) for j in (0, 1) if rows[i][j] is None]
+        for combo in itertools.product((False, True), repeat=len(unknown)):
+            mm = [list(x) for x in rows]
+            for (i, j), v in zip(unknown, combo):
+                mm[i][j] = v
+            if any(e and u_ for e, u_ in mm):
+                continue  # an empty row contains no platform at all
+            want_num = sorted(f"{ITER}[{i}][1]" for i in range(n) if not mm[i][0] and mm[i][1])
+            want_den = sorted(f"{ITER}[{i}][1]" for i in range(n))
+            key = "report:coverage:row:" + ";".join(f"empty={int(e)},used_by_selected={int(u_)}" for e, u_ in mm)
+            _ratio_spec(ctx, g, p, key, res, want_num, want_den, 100.0, f"rows (empty, used by a selected platform) = {[(e, u_) for e, u_ in mm]}: coverage is 100 * <lines used by a selected platform> / <all lines>")
+    if n_cov < 4:
+        raise AnalysisError(f"coverage: only {n_cov} row paths understood")
     # every row of the table is visited: no break / return inside the accumulation loops
     for fn_ in (f, g):
-        for lp_ in [n for n in fn_.node.body if isinstance(n, ast.For)]:
+        for lp_ in [n for n in fn_.body_nodes() if isinstance(n, ast.For)]:
             bad = [x for x in ast.walk(lp_) if isinstance(x, (ast.Break, ast.Return))]
             ctx.check(not bad, f"report:{fn_.name}:loop-visits-every-row", f"the accumulation loop `for {u(lp_.target)} in {u(lp_.iter)}` can stop early ({u(bad[0]) if bad else ''}): rows after that point are left out of the sums, so the metric depends on the order of the table", fn_.loc(lp_))
-    # default platform set = all platforms of the table
-    dflt = [s for s in g.node.body if isinstance(s, ast.If) and u(s.test) == f"not {plc}"]
-    ok = len(dflt) == 1 and u(dflt[0].body[0]) == f"{plc} = set().union(*{smc}.keys())"
-    ctx.soft(ok, "report:coverage:default-platforms", "without `platforms`, all platforms of the table must be selected", g.loc())
-    ctx.floor(4 + 1 + 3 + 2)
+    ctx.floor(10)
 
 
 def _run_iteration(loop, member):
@@ -375,30 +449,83 @@ def r4(ctx):
     ctx.check(ok, key + ":platforms-of-whole-table", f"platform pairs must be drawn from all platforms of the table passed in (`extract_platforms({smd})` on the unmodified parameter): a platform that only occurs in zero-count rows still is a platform", d.loc())
     rebound = [s for s in walk_no_nested(d.node) if isinstance(s, ast.Assign) and u(s.targets[0]) == smd]
     ctx.check(not rebound, key + ":table-not-rebound", f"`{smd}` is replaced inside divergence: {[u(s)[:60] for s in rebound]}", d.loc())
-    pairs = [c for c in d.calls() if u(c.func) in ("it.combinations", "itertools.combinations", "it.permutations", "itertools.permutations", "combinations", "permutations")]
-    ok = len(pairs) == 1 and len(pairs[0].args) == 2 and u(pairs[0].args[1]) == "2"
-    if ok:
-        leaves = provenance(d, pairs[0].args[0], stmt_of(d, pairs[0]))
-        ok = any(u(l).startswith("extract_platforms(") or u(l) == smd for l, c in leaves)
-    ctx.soft(ok, key + ":all-pairs", "distances must be taken over all 2-element combinations (or permutations) of the platform list", d.loc())
-    # each pair contributes distance(setmap, p1, p2) once and is counted once
-    dc = [c for c in d.calls() if callee(c) == "distance"]
-    ok = len(dc) == 1 and u(dc[0].args[0]) == smd
-    ctx.soft(ok, key + ":distance-of-pair", "each pair must contribute distance(setmap, p1, p2)", d.loc())
-    rets = [n.value for n in walk_no_nested(d.node) if isinstance(n, ast.Return) and "nan" not in u(n.value)]
-    ok = len(rets) == 1 and isinstance(rets[0], ast.BinOp) and isinstance(rets[0].op, ast.Div)
-    if ok:
-        den = rets[0].right
-        den = den.args[0] if isinstance(den, ast.Call) and u(den.func) == "float" else den
-        num = rets[0].left
-        # denominator = number of accumulated distances
-        dl = provenance(d, den, stmt_of(d, rets[0]))
-        nl = provenance(d, num, stmt_of(d, rets[0]))
-        nchains = sum((c for _, c in nl), [])
-        dchains = sum((c for _, c in dl), [])
-        sums = any(c in ("math.fsum", "sum", "<aug>") for c in nchains)
-        ok = "distance" in nchains and sums and ("len" in dchains and "distance" in dchains or "<aug>" in dchains)
-    ctx.soft(ok, key + ":mean", f"divergence must be (sum of pair distances) / (number of pairs): {[u(r) for r in rets]}", d.loc())
+    # table specification of the mean: on the path that returns a number, the value is
+    #   sum(distance(setmap, a, b) for (a, b) in PAIRS) / |PAIRS|,  PAIRS = the pairs of DISTINCT platforms of the table
+    # (combinations, permutations, or two loops over the platform list with a filter a != b / a < b)
+    from ..spec import _strip_parens, product_form, tab, vt
+
+    n_mean = 0
+    for p in tab(d, unroll=1):
+        if p.result[0] != "return":
+            continue
+        res = vt(p.result[1])
+        if "nan" in res.lower() and "distance(" not in res:
+            continue
+        num, den = product_form(res)
+        num = [x for x in num if not re.fullmatch(r"-?\d+(\.\d*)?", x)]
+        if len(num) != 1 or "distance(" not in num[0]:
+            raise AnalysisError(f"divergence: returned value not recognised as a mean of distances: {res[:120]}")
+        i = num[0].find("comp:")
+        if i < 0:
+            raise AnalysisError(f"divergence: the summed distances are not a comprehension: {num[0][:120]}")
+        j, depth = i + 5, 0
+        for j in range(i + 5, len(num[0])):
+            depth += num[0][j] in "[("
+            depth -= num[0][j] in "])"
+            if depth == 0:
+                break
+        comp_text = num[0][i + 5 : j + 1]
+        try:
+            comp = ast.parse(comp_text, mode="eval").body
+        except SyntaxError:
+            raise AnalysisError(f"divergence: comprehension text does not parse: {comp_text[:100]}")
+        gens, node = [], comp
+        while isinstance(node, (ast.ListComp, ast.GeneratorExp, ast.SetComp)):
+            gens = list(node.generators) + gens if False else gens + list(node.generators)
+            node = node.elt
+        # nested comprehension [[.. for b in P] for a in P]: the outer generators come first in `gens`
+        if not (isinstance(node, ast.Call) and u(node.func) == "distance" and len(node.args) == 3):
+            raise AnalysisError(f"divergence: summed element is not distance(setmap, a, b): {u(node)[:80]}")
+        n_mean += 1
+        a0, a1, a2 = [u(x) for x in node.args]
+        P_OK = lambda t: re.fullmatch(r"(sorted|list|tuple)?\(?extract_platforms\(" + re.escape(smd) + r"\)\)?", t) is not None
+        targets = []
+        distinct = False
+        dom = None
+        for g_ in gens:
+            it_ = g_.iter
+            if isinstance(it_, ast.Call) and u(it_.func) in ("it.combinations", "itertools.combinations", "it.permutations", "itertools.permutations", "combinations", "permutations") and len(it_.args) == 2 and u(it_.args[1]) == "2" and isinstance(g_.target, ast.Tuple):
+                targets += [u(e) for e in g_.target.elts]
+                distinct = True
+                dom = u(it_.args[0])
+            else:
+                targets.append(u(g_.target))
+                dom = u(it_) if dom in (None, u(it_)) else "<different lists>"
+            for c_ in g_.ifs:
+                if isinstance(c_, ast.Compare) and len(c_.ops) == 1 and isinstance(c_.ops[0], (ast.NotEq, ast.Lt, ast.Gt)) and {u(c_.left), u(c_.comparators[0])} == set(targets[-2:]):
+                    distinct = True
+                else:
+                    ctx.violation(key + ":all-pairs", f"pairs are filtered by `{u(c_)[:60]}`: every pair of distinct platforms must contribute", d.loc())
+        if len(targets) != 2:
+            raise AnalysisError(f"divergence: pair domain not recognised: {comp_text[:120]}")
+        ctx.check(distinct, key + ":all-pairs", f"distances are summed over ALL (a, b) in platforms x platforms, including a platform paired with itself: distance(p, p) is NaN for a platform that uses no line (0/0) and is 0 otherwise, so the mean over the pairs of distinct platforms is lost", d.loc())
+        ctx.check(dom is not None and P_OK(dom), key + ":all-pairs", f"pairs must be drawn from the platform list of the table (`extract_platforms({smd})`): drawn from `{dom}`", d.loc())
+        ctx.check(a0 == smd and {a1, a2} == set(targets), key + ":distance-of-pair", f"each pair must contribute distance({smd}, a, b): contributes distance({a0}, {a1}, {a2})", d.loc())
+        if dom is not None and sorted(den) == sorted([f"len({dom})", f"len({dom}) Sub 1"]):
+            den = [f"len({dom}) Mult (len({dom}) Sub 1)"]
+        if len(den) != 1:
+            raise AnalysisError(f"divergence: divisor not recognised: {den}")
+        dt = _strip_parens(den[0])
+        m = re.fullmatch(r"len\(comp:(.*)\)", dt)
+        if m:
+            ctx.check(m.group(1) == comp_text, key + ":mean", f"the sum of the distances in `{comp_text[:60]}` is divided by the length of a different collection `{m.group(1)[:60]}`", d.loc())
+        elif distinct and dom is not None and dt in (f"len({dom}) Mult (len({dom}) Sub 1)", f"(len({dom}) Sub 1) Mult len({dom})"):
+            ok_n = not any(isinstance(g_.iter, ast.Call) and "combinations" in u(g_.iter.func) for g_ in gens) and not any(isinstance(c_.ops[0], (ast.Lt, ast.Gt)) for g_ in gens for c_ in g_.ifs if isinstance(c_, ast.Compare))
+            ctx.check(ok_n, key + ":mean", "n*(n-1) is the number of ORDERED pairs; the sum runs over unordered ones", d.loc())
+        else:
+            ctx.violation(key + ":mean", f"divergence must be (sum of pair distances) / (number of pairs summed): divides by `{dt[:80]}`", d.loc())
+    if not n_mean:
+        raise AnalysisError("divergence: no path returns a mean of distances")
     # extract_platforms: union of all keys
     e = repo.func("report", "extract_platforms")
     rets = [u(n.value) for n in walk_no_nested(e.node) if isinstance(n, ast.Return)]
